@@ -293,6 +293,13 @@ class Ctx:
                 self.log("PROOF BROKEN:", err)
                 return False
             self.print_assumptions = self._assumptions(out)
+            if "Axioms:" in self.print_assumptions:
+                # every property theorem of this development is closed under the global context; an axiom showing up under a
+                # Print Assumptions means a proof was weakened
+                self.broken.append("coq: a property theorem depends on axioms: " + self.print_assumptions[self.print_assumptions.find("Axioms:"):][:600])
+            bad = self._forbidden(props_file)
+            if bad:
+                self.broken.append("coq: forbidden construct in the development: " + "; ".join(bad[:5]))
             if self.tier == "thorough" and os.environ.get("VERIF_NO_COQCHK") != "1":
                 self._coqchk(props_file)
             return True
@@ -310,6 +317,22 @@ class Ctx:
         self.log("coqchk -o %s: rc=%d in %.0fs" % (mod, rc, time.time() - t))
         if rc != 0:
             self.broken.append("coqchk rejects the compiled development: " + out[-800:])
+
+    FORBIDDEN = re.compile(r"\b(Admitted|admit|Axiom|Axioms|Parameter|Parameters|Conjecture|Admit\s+Obligations|bypass_check|"
+                           r"Unset\s+Guard\s+Checking|Unset\s+Positivity\s+Checking|Unset\s+Universe\s+Checking|give_up)\b")
+
+    def _forbidden(self, props_file):
+        """Admitted / Axiom / Parameter / disabled kernel checks anywhere in the cone of the property file (comments removed)."""
+        found = []
+        for f in sorted(self.cone(props_file)):
+            try:
+                txt = (self.bdir / f).read_text()
+            except FileNotFoundError:
+                continue
+            txt = strip_coq_comments(txt)
+            for m in self.FORBIDDEN.finditer(txt):
+                found.append("%s: %s" % (f, m.group(0)))
+        return found
 
     def _first_error(self, out):
         lines = out.splitlines()
@@ -540,6 +563,29 @@ def default_trusted_base():
         "CPython semantics of str/bytes/re primitives as modelled in Base/PyStr.v (validated exhaustively per latin-1 character)",
         "OS / kernel behaviour (sockets, signals, rename(2), credentials) is modelled, not verified",
     ]
+
+
+def strip_coq_comments(txt):
+    """remove (possibly nested) Coq comments; string literals are kept as they are"""
+    out, depth, i, n = [], 0, 0, len(txt)
+    in_str = False
+    while i < n:
+        c = txt[i]
+        if depth == 0 and c == '"':
+            in_str = not in_str
+            out.append(c)
+            i += 1
+        elif not in_str and txt.startswith("(*", i):
+            depth += 1
+            i += 2
+        elif not in_str and depth and txt.startswith("*)", i):
+            depth -= 1
+            i += 2
+        else:
+            if depth == 0:
+                out.append(c)
+            i += 1
+    return "".join(out)
 
 
 def default_assumptions():
